@@ -172,11 +172,12 @@ def find__all__(module):
 
         return False
 
-    for node in ast.iter_child_nodes(module):
+    # __all__ may be assigned anywhere, e.g. in an if or try statement
+    for node in ast.walk(module):
         if not is_assign_all_node(node):
             continue
 
-        if not isinstance(node.value, ast.List):
+        if not isinstance(node.value, (ast.List, ast.Tuple)):
             continue
 
         for el in node.value.elts:
